@@ -503,6 +503,124 @@ fn part_behaviour() -> PartResult {
     r
 }
 
+// ---------------------------------------------------------------------------
+// (e) the production binary itself (thorough tier): -g, start-up verdicts
+
+fn part_process() -> PartResult {
+    use std::io::Read;
+    use std::process::{Command, Stdio};
+    let t0 = Instant::now();
+    let mut r = PartResult::new("fun:c20-process", "E-FUN");
+    let (bin, dir) = crate::props::bind_paths();
+    if !std::path::Path::new(&bin).exists() {
+        r.machinery = Some(format!("production binary {} not built", bin));
+        return r;
+    }
+    // -g prints a hash that accepts exactly the password it was generated from
+    for pw in ["secret", "a b", "é", "x"] {
+        r.evaluations += 1;
+        let out = Command::new(&bin).args(["-g", "-P", pw]).output();
+        match out {
+            Ok(o) if o.status.success() => {
+                let txt = String::from_utf8_lossy(&o.stdout).to_string();
+                let hash = txt.trim().rsplit(' ').next().unwrap_or("").to_string();
+                let ok = argon2_verify_password(pw, &hash).is_ok();
+                let other = argon2_verify_password(&format!("{}x", pw), &hash).is_ok();
+                if !ok || other || validate_password_hash(&hash).is_err() {
+                    r.violations.push(fv("fun:c20-process", finding("process:genhash", format!("'-g -P {:?}' printed {:?}: accepts own password={}, accepts another={}", pw, txt.trim(), ok, other)), json!({"pw": pw})));
+                }
+            }
+            other => r.violations.push(fv("fun:c20-process", finding("process:genhash", format!("'-g -P {:?}' failed: {:?}", pw, other.map(|o| o.status))), json!({"pw": pw}))),
+        }
+    }
+    // start-up: invalid configurations exit with an error and never listen; a valid one serves
+    let m = menus();
+    let valid_head = head(&m.name[0], &m.password[0]);
+    let tail = "\n[default_user_modes]\ninvisible = false\noper = false\nlocal_oper = false\nregistered = false\nwallops = false\n";
+    let cases: Vec<(&str, String, Vec<String>, bool)> = vec![
+        ("valid", format!("{}{}", valid_head, tail), vec![], true),
+        ("undotted-name", format!("{}{}", head(&m.name[1], &m.password[0]), tail), vec![], false),
+        ("bad-password-hash", format!("{}{}", head(&m.name[0], &m.password[2]), tail), vec![], false),
+        ("bad-user-nick", format!("{}{}{}", valid_head, tail, m.user[4].text), vec![], false),
+        ("bad-channel", format!("{}{}{}", valid_head, tail, m.chan[2].text), vec![], false),
+        ("cli-cert-only", format!("{}{}", valid_head, tail), vec!["-C".into(), "c.crt".into()], false),
+        ("cli-undotted-name", format!("{}{}", valid_head, tail), vec!["-n".into(), "nodot".into()], false),
+        ("cli-dotted-name-rescues", format!("{}{}", head(&m.name[1], &m.password[0]), tail), vec!["-n".into(), "ok.example".into()], true),
+    ];
+    for (k, (label, text, extra, want_serving)) in cases.iter().enumerate() {
+        r.evaluations += 1;
+        let port = 23100 + k as u16;
+        let path = format!("{}/proc-{}.toml", dir, k);
+        let _ = std::fs::write(&path, text.replace("port = 6667", &format!("port = {}", port)));
+        let mut args = vec!["-c".to_string(), path.clone()];
+        args.extend(extra.iter().cloned());
+        let child = Command::new(&bin).args(&args).stdin(Stdio::null()).stdout(Stdio::null()).stderr(Stdio::piped()).spawn();
+        let mut child = match child {
+            Ok(c) => c,
+            Err(e) => {
+                r.machinery = Some(format!("cannot spawn the production binary: {}", e));
+                break;
+            }
+        };
+        // wait up to 1.5 s for it to listen or to exit
+        let mut serving = false;
+        let mut exited = None;
+        for _ in 0..150 {
+            if let Ok(Some(st)) = child.try_wait() {
+                exited = Some(st);
+                break;
+            }
+            if std::net::TcpStream::connect(("127.0.0.1", port)).is_ok() {
+                serving = true;
+                break;
+            }
+            std::thread::sleep(std::time::Duration::from_millis(10));
+        }
+        let mut welcome = true;
+        if serving {
+            // a client is served: registration gets 001 carrying the configured/overridden name
+            if let Ok(mut sck) = std::net::TcpStream::connect(("127.0.0.1", port)) {
+                use std::io::Write;
+                let _ = sck.write_all(b"NICK proc\r\nUSER pu 0 * :r\r\n");
+                let _ = sck.set_read_timeout(Some(std::time::Duration::from_millis(300)));
+                let mut buf = vec![0u8; 8192];
+                let mut got = String::new();
+                while let Ok(n) = sck.read(&mut buf) {
+                    if n == 0 {
+                        break;
+                    }
+                    got.push_str(&String::from_utf8_lossy(&buf[..n]));
+                    if got.contains(" 221 ") {
+                        break;
+                    }
+                }
+                let name = if *label == "cli-dotted-name-rescues" { "ok.example" } else { "irc.example" };
+                welcome = got.contains(&format!(":{} 001 proc", name));
+            }
+        }
+        let _ = child.kill();
+        let st = child.wait().ok();
+        let failed_exit = exited.map_or(false, |s| !s.success());
+        if *want_serving {
+            if !serving || !welcome {
+                r.violations.push(fv("fun:c20-process", finding("process:start", format!("valid configuration {:?}: serving={} welcome-ok={} exit={:?}", label, serving, welcome, exited)), json!({"case": label})));
+            }
+        } else if serving || !failed_exit {
+            r.violations.push(fv("fun:c20-process", finding("process:start", format!("invalid configuration {:?}: the server should exit with an error instead of serving (serving={}, exit={:?}/{:?})", label, serving, exited, st)), json!({"case": label})));
+        }
+        let _ = std::fs::remove_file(&path);
+    }
+    r.states = r.evaluations;
+    r.transitions = r.evaluations;
+    r.distinct = r.evaluations;
+    r.traces = r.evaluations;
+    r.exhaustive = true;
+    r.samples = vec![json!({"case":"cli-cert-only","expected":"process exits with an error, nothing listens"})];
+    r.extra = json!({"binary": bin});
+    r.wall_s = t0.elapsed().as_secs_f64();
+    r
+}
+
 pub fn replay_fun(scenario: &str, input: &Value) -> Vec<Finding> {
     match scenario {
         "fun:c20-example" => example_findings().0,
@@ -515,7 +633,16 @@ pub fn replay_fun(scenario: &str, input: &Value) -> Vec<Finding> {
     }
 }
 
-pub fn plan(_quick: bool) -> Plan {
+pub fn plan(quick: bool) -> Plan {
+    let mut plan = plan_base();
+    if !quick {
+        plan.parts.push(Part::Custom("fun:c20-process".into(), Box::new(part_process)));
+        plan.rule.push_str("; (e, thorough) the production binary built without the cfg: '-g -P pw' prints a hash that verifies exactly pw; 6 invalid configurations/command lines make the process exit with an error without ever listening, 2 valid ones are served (001 with the effective name)");
+    }
+    plan
+}
+
+fn plan_base() -> Plan {
     Plan {
         property: "C20".into(),
         rule: "(a) the full product of per-field menus of a configuration file (name dotted/undotted; password absent/valid/bad base64/wrong length; user none/valid/valid without password/name with channel sigil/nick with dot/201-char nick/5-char password/bad hash; operator none/valid/bad name/bad hash; channel none/valid/no sigil/comma; [tls] absent/both/one key) x 11 command-line variants = 33 792 configurations through Cli::try_parse_from + MainConfig::new: accepted iff every field is valid (the effective name after -n counts, -C and -K only together), CLI overrides win; (b) each leaf key documented in config-example.toml is removed in turn: the parsed configuration must change (the key is live) or be rejected (it is required); (c) 20x20 password pairs: verify(q, hash(p)) iff p = q, every generated hash passes validation; (d) 288 valid configurations on the wire: welcome burst (001, 002, 004, 005 NETWORK/CHANLIMIT, 372, 375, 221) reflects name/network/MOTD/max_joins/default modes, default modes take effect, max_joins is enforced, the server password is the one that was hashed".into(),
